@@ -20,7 +20,9 @@ func GenC12(verifSeed uint64, run int) *Scenario {
 	seed := Mix(verifSeed, 12, uint64(run))
 	g := NewRng(seed)
 	w := GenWorld(g, GenOpts{FixMTime: true, Small: true, SharedBias: true, PartialInvalidP: 0.2})
-	plan := &C12Plan{NConfigs: 1, GoMaxProcs: Pick(g, []int{1, 2, 4, 16})}
+	// (one P more often: per-P caches such as sync.Pool hand an object from one
+	// client to the next only on the same P)
+	plan := &C12Plan{NConfigs: 1, GoMaxProcs: Pick(g, []int{1, 1, 2, 4, 16})}
 	// clients of the shared Config: different formats, each at most once
 	fs := append([]string{}, Formats...)
 	g.Shuffle(len(fs), func(i, j int) { fs[i], fs[j] = fs[j], fs[i] })
@@ -35,7 +37,7 @@ func GenC12(verifSeed uint64, run int) *Scenario {
 		plan.Clients = append(plan.Clients, c)
 	}
 	// clients of an independently parsed Config: any formats
-	if g.Bool(0.5) && len(plan.Clients) < 6 {
+	if g.Bool(0.6) && len(plan.Clients) < 6 {
 		plan.NConfigs = 2
 		m := g.Range(1, 2)
 		for i := 0; i < m && len(plan.Clients) < 6; i++ {
@@ -576,6 +578,12 @@ func runBaton(clients []*c12client, plan *C12Plan) (schedule []Switch, trace []s
 			}
 			if plan.Guided && (code == siteAfterGet || code == siteAfterDefaults || code == siteAfterPrepare || code == siteAfterName) && p < 0.7 {
 				p = 0.7
+			}
+			// a client parked inside a write to its sink is in the middle of
+			// flushing / closing its encoders: in-flight state worth
+			// interleaving with
+			if plan.Guided && code == siteSinkWrite && p < 0.5 {
+				p = 0.5
 			}
 			others := candidates(id)
 			if len(others) > 0 && g.Bool(p) {
